@@ -201,6 +201,35 @@ func c12(ctx *Ctx) (*Outcome, error) {
 			}
 			c.sig += " ambiguous-extensionless-ref"
 		}
+		if i%7 == 2 {
+			// a schema mapped to a package only (no output file of its own) while that package has several file outputs
+			// already when it is first reached (command line order / through a reference): where its declarations go -
+			// nowhere, by the tool's design - does not depend on the process
+			first := fs.Files[0]
+			dir := filepath.Dir(first.Path)
+			pkg := "example.com/mod/detpkg"
+			money := &sg.Schema{ID: "https://example.com/detmoney", Types: []string{"object"}, Props: []sg.Prop{{Name: "amount", S: &sg.Schema{Types: []string{"number"}}}, {Name: "currency", S: &sg.Schema{Types: []string{"string"}, MinLen: 3}}}, Required: []string{"amount"}}
+			customer := &sg.Schema{ID: "https://example.com/detcustomer", Types: []string{"object"}, Props: []sg.Prop{{Name: "customerName", S: &sg.Schema{Types: []string{"string"}}}}}
+			order := &sg.Schema{ID: "https://example.com/detorder", Types: []string{"object"}, Props: []sg.Prop{{Name: "total", S: &sg.Schema{Ref: "detmoney.json", Target: money}}, {Name: "orderNo", S: &sg.Schema{Types: []string{"integer"}}}}}
+			extra := &sg.Schema{ID: "https://example.com/detextra", Types: []string{"object"}, Props: []sg.Prop{{Name: "extraNote", S: &sg.Schema{Types: []string{"string"}}}, {Name: "price", S: &sg.Schema{Ref: "detmoney.json", Target: money}}}}
+			for _, lf := range []struct {
+				name string
+				root *sg.Schema
+				out  string
+				cmd  bool
+			}{{"detcustomer", customer, "out/detcustomer.go", true}, {"detorder", order, "out/detorder.go", true}, {"detextra", extra, "out/detextra.go", (i/7)%2 == 0}, {"detmoney", money, "", (i/7)%3 == 1}} {
+				f := &sg.SchemaFile{Name: lf.name, Path: filepath.Join(dir, lf.name+".json"), Root: lf.root, ID: lf.root.ID}
+				c.libs = append(c.libs, f)
+				if lf.cmd {
+					c.pre = append(c.pre, f.Path)
+				}
+				c.opts = append(c.opts, "--schema-package", lf.root.ID+"="+pkg)
+				if lf.out != "" {
+					c.opts = append(c.opts, "--schema-output", lf.root.ID+"="+lf.out)
+				}
+			}
+			c.sig += " package-only-next-to-file-outputs"
+		}
 		if i%7 == 3 {
 			// one keyword value reachable from two validators that land in DIFFERENT output files: an allOf member types a
 			// property as integer, a member given by reference into another document (mapped to an output of its own)
@@ -298,6 +327,7 @@ func c12(ctx *Ctx) (*Outcome, error) {
 		// the same options written differently (short flags, --flag=value, repeated vs comma-joined lists)
 		{
 			a := RespellOpts(append([]string{"-p", "detpkg"}, c.opts...))
+			a = append(a, c.pre...)
 			for _, f := range c.fs.Files {
 				a = append(a, f.Path)
 			}
@@ -350,6 +380,9 @@ func c12(ctx *Ctx) (*Outcome, error) {
 				files = append(files, batch.File{Path: filepath.Join(prefix, f.Path), Data: f.Data})
 			}
 			a := append([]string{"-p", "detpkg"}, c.opts...)
+			for _, pf := range c.pre {
+				a = append(a, filepath.Join(prefix, pf))
+			}
 			for _, f := range c.fs.Files {
 				a = append(a, filepath.Join(prefix, f.Path))
 			}
